@@ -91,6 +91,58 @@ def evaluate_stub(text, target_mod):
     return out, classes
 
 
+GENERIC_NAME = {"List": "List", "Set": "Set", "Dict": "Dict", "DefaultDict": "DefaultDict", "Tuple": "Tuple", "TupleVar": "Tuple", "Type": "Type",
+                "Iterator": "Iterator", "Generator": "Generator", "Callable": "Callable", "Union": "Union"}
+
+
+def uses_c(t):
+    """Concrete twin of T-IMPORTS uses(t, m, n): the set of (module, name) pairs the rendered annotation needs."""
+    k = spec_c.kind(t)
+    if not (isinstance(t, type) or t is Any or k in GENERIC_NAME) or getattr(t, "__module__", None) == "builtins":
+        return set()
+    if t is Any:
+        return {("typing", "Any")}
+    if k == "Union":
+        out = set()
+        if NoneType in t.__args__:
+            out.add(("typing", "Optional"))
+            if len(t.__args__) >= 3:
+                out.add(("typing", "Union"))
+        else:
+            out.add(("typing", "Union"))
+        for a in t.__args__:
+            if a is not NoneType:
+                out |= uses_c(a)
+        return out
+    if k in GENERIC_NAME:
+        out = {(t.__module__, GENERIC_NAME[k].split(".")[0])}
+        for a in getattr(t, "__args__", ()) or ():
+            out |= uses_c(a)
+        return out
+    return {(t.__module__, t.__qualname__.split(".")[0])}
+
+
+def has_td(t):
+    k = spec_c.kind(t)
+    if k in ("TD", "NamedTD"):
+        return True
+    return any(a is not Ellipsis and has_td(a) for a in getattr(t, "__args__", ()) or ()) if k in GENERIC_NAME else False
+
+
+def eval_with_uses(text, fn, which, t, target_mod):
+    """Evaluate one annotation of the stub in a namespace that provides only what uses_c(t) says (plus builtins and the target module's own classes)."""
+    ns = {n: v for n, v in vars(target_mod).items() if isinstance(v, type) and v.__module__ == target_mod.__name__}
+    for m, n in uses_c(t):
+        if m != target_mod.__name__:
+            ns[n] = getattr(importlib.import_module(m), n)
+    tree = ast.parse(text)
+    for st in ast.walk(tree):
+        if isinstance(st, (ast.FunctionDef, ast.AsyncFunctionDef)) and st.name == fn.split(".")[-1]:
+            node = st.returns if which == "return" else next(a.annotation for a in st.args.args if a.arg == which)
+            return eval(compile(ast.Expression(node), "<anno>", "eval"), ns)
+    raise LookupError(fn)
+
+
 def run(ctx):
     H = Harness(ctx)
     rnd = random.Random(ctx["seed"])
@@ -156,6 +208,15 @@ def run(ctx):
                                 {"evaluated": repr(got), "stub": text[-600:]})
                 else:
                     H.ok(key, sample={"type": infer.short(t), "position": pos, "stub_tail": text[-160:]})
+                    # T-IMPORTS validation: the names uses(t, ., .) lists are all the rendered annotation needs
+                    if not has_td(want):
+                        try:
+                            got2 = eval_with_uses(text, fn, "x" if pos == "arg" else "return", want, target)
+                            got2 = NoneType if got2 is None else got2
+                            if not td_equiv(got2, want, {}):
+                                H.theory_failure("uses-def", "annotation evaluated with only the names uses() lists denotes another type", {"type": repr(want), "got": repr(got2)})
+                        except NameError as e:
+                            H.theory_failure("uses-def", "the rendered annotation needs a name that uses() does not list: %r" % (e,), {"type": repr(want), "uses": sorted(uses_c(want)), "stub": text[-300:]})
         pk = importlib.import_module("pkg11")
         cls_leaves = [c for c in leaves if isinstance(c, type) and c.__module__ not in ("builtins",)] + [pk.Root]
         H.section("two annotations in one signature", "ordered pairs of classes from modules whose names overlap (a package and its submodule, zz11 / pkg11.zz11, foo11 / barfoo11) as the two parameter types of "
